@@ -320,9 +320,13 @@ class Part(object):
         measures = np.array([(m.start.t, m.end.t) for m in self.iter_all(Measure)])
 
         # correct for anacrusis
-        divs_per_beat = self.inv_beat_map(
-            1 + self.beat_map(0)
-        )  # find the divs per beat in the first measure
+        # the divs per beat in the first measure, from the time signature and
+        # the divisions in force at 0 (looking one beat ahead on the beat map
+        # goes wrong when the signature changes or the part ends within that beat)
+        ts_beats, ts_beat_type, ts_mus_beats = self.time_signature_map(0)
+        divs_per_beat = float(self.quarter_duration_map(0)) * 4 / ts_beat_type
+        if self._use_musical_beat:
+            divs_per_beat = divs_per_beat * ts_beats / ts_mus_beats
         # number of beats in a bar, in the kind of beat the beat map counts
         beats_idx = 2 if self._use_musical_beat else 0
         if (
@@ -385,9 +389,13 @@ class Part(object):
             ]
         )
         # correct for anacrusis
-        divs_per_beat = self.inv_beat_map(
-            1 + self.beat_map(0)
-        )  # find the divs per beat in the first measure
+        # the divs per beat in the first measure, from the time signature and
+        # the divisions in force at 0 (looking one beat ahead on the beat map
+        # goes wrong when the signature changes or the part ends within that beat)
+        ts_beats, ts_beat_type, ts_mus_beats = self.time_signature_map(0)
+        divs_per_beat = float(self.quarter_duration_map(0)) * 4 / ts_beat_type
+        if self._use_musical_beat:
+            divs_per_beat = divs_per_beat * ts_beats / ts_mus_beats
         # number of beats in a bar, in the kind of beat the beat map counts
         beats_idx = 2 if self._use_musical_beat else 0
         if (
